@@ -2,8 +2,10 @@ package main
 
 import (
 	"go.uber.org/zap/verif/props/c03"
+	"go.uber.org/zap/verif/props/c05"
 	"go.uber.org/zap/verif/props/c13"
 	"go.uber.org/zap/verif/props/c17"
+	"go.uber.org/zap/verif/props/c20"
 	"go.uber.org/zap/verif/props/encjson"
 )
 
@@ -12,5 +14,7 @@ func init() {
 	register("C03", "exploration", c03.Run, nil)
 	register("C17", "exploration", c17.Run, nil)
 	register("C13", "fault_enumeration", c13.Run, c13.Child)
+	register("C20", "exploration", c20.Run, nil)
+	register("C05", "exploration", c05.Run, nil)
 	register("C02", "exploration", encjson.Run02, nil)
 }
